@@ -123,13 +123,34 @@ def table():
             if x and x["signatures"]:
                 sig = x["signatures"][0]
                 break
-        rows.append("| %s | %s | %s | %s | %s | `%s` |" % (name, m["property"], m.get("summary", "").replace("|", "/"), v("quick"), v("thorough"), sig.replace("|", "/")[:90]))
-    print("| seeded change | property | what it does / what it needs | quick | thorough | first signature |")
-    print("|---|---|---|---|---|---|")
+        if "before_strengthening" in m:
+            first = m["before_strengthening"]["verdict"]
+        elif "quick_before_strengthening" in det:
+            first = v("quick_before_strengthening") + " (measured)"
+        else:
+            first = "= now"
+        rows.append("| %s | %s | %s | %s | %s | %s | `%s` |" % (name, m["property"], m.get("summary", "").replace("|", "/"), first, v("quick"), v("thorough"), sig.replace("|", "/")[:90]))
+    print("| seeded change | property | what it does / what it needs | first version of the check | quick now | thorough | first signature |")
+    print("|---|---|---|---|---|---|---|")
     print("\n".join(rows))
 
 
+def import_(name, prop, crate, cmd, summary, needs, origin):
+    d = os.path.join(ROOT, "seeded", name)
+    os.makedirs(d, exist_ok=True)
+    for f in ("patch.diff", "demo.rs", "note.md"):
+        shutil.copy("/tmp/mut/%s/out/%s" % (name, f), d)
+    json.dump({"property": prop, "demo_crate": crate, "demo_cmd": cmd, "summary": summary + "; " + needs, "needs": needs, "origin": origin}, open(os.path.join(d, "meta.json"), "w"), indent=1)
+    sh("git -C /repo worktree remove --force /tmp/mut/%s" % name)
+    sh("git -C /repo worktree prune")
+
+
 if __name__ == "__main__":
+    if sys.argv[1] == "import":
+        # import NAME PROP CRATE CMD SUMMARY NEEDS [ORIGIN]
+        origin = sys.argv[8] if len(sys.argv) > 8 else "independent sub-agent (hardest round: told that debug/release/no_std/Miri, width-boundary, IEEE-special, source-literal, wide and long-run inputs are already tested; asked for history-, combination- or route-dependent faults) given only the property text and a scratch worktree"
+        import_(sys.argv[2], sys.argv[3], sys.argv[4], sys.argv[5], sys.argv[6], sys.argv[7], origin)
+        sys.exit(0)
     if sys.argv[1] == "confirm":
         print(json.dumps(confirm(sys.argv[2]), indent=1))
     elif sys.argv[1] == "detect":
